@@ -91,6 +91,7 @@ NTR:
 
 from dawgie.pl.jobinfo import State
 
+import calendar
 import datetime
 import dawgie
 import dawgie.context
@@ -144,10 +145,20 @@ def _delay(when: dawgie.EVENT) -> datetime.timedelta:
             pass
 
         if when.moment.dom is not None:
-            nm = now.month + 1
+            # this month's occurrence while it is still ahead (or today),
+            # otherwise the next month that has such a day
+            year, nm = now.year, now.month + (when.moment.dom < now.day)
+            while True:
+                year, nm = year + (nm - 1) // 12, (nm - 1) % 12 + 1
+                if (
+                    when.moment.dom <= calendar.monthrange(year, nm)[1]
+                    or 31 < when.moment.dom
+                ):
+                    break
+                nm += 1
             then = datetime.datetime(
-                year=now.year + (1 if nm == 13 else 0),
-                month=1 if nm == 13 else nm,
+                year=year,
+                month=nm,
                 day=when.moment.dom,
                 hour=when.moment.time.hour,
                 minute=when.moment.time.minute,
